@@ -8,6 +8,7 @@ import (
 	"strconv"
 	"strings"
 	"sync"
+	"sync/atomic"
 	"time"
 
 	"go.uber.org/zap"
@@ -80,7 +81,8 @@ type TCPServerTransport struct {
 	selfLearnRoute       *SelfLearnRoute
 	msgHandler           MessageHandler
 	connAcceptedListener ConnectionAcceptedListener
-	exit                 bool
+	// set by the receive goroutine, read by the message loop: 0 = running, 1 = exit
+	exit int32
 }
 
 type ClientTransport interface {
@@ -486,7 +488,7 @@ func NewTCPServerTransport(addr string,
 		receivedSupport:      receivedSupport,
 		connAcceptedListener: connAcceptedListener,
 		selfLearnRoute:       selfLearnRoute,
-		exit:                 false,
+		exit:                 0,
 	}
 }
 
@@ -504,7 +506,7 @@ func NewTCPServerTransportWithConn(conn net.Conn,
 			receivedSupport:      receivedSupport,
 			connAcceptedListener: nil,
 			selfLearnRoute:       selfLearnRoute,
-			exit:                 false,
+			exit:                 0,
 		}
 	}
 	return nil
@@ -562,7 +564,7 @@ func (t *TCPServerTransport) receiveMessage(conn net.Conn) {
 		t.msgHandler.HandleRawMessage(rawMsg)
 	}
 	if t.conn != nil {
-		t.exit = true
+		atomic.StoreInt32(&t.exit, 1)
 	}
 }
 
@@ -583,6 +585,5 @@ func (t *TCPServerTransport) GetPort() int {
 }
 
 func (u *TCPServerTransport) IsExit() bool {
-	return u.conn != nil && u.exit
+	return u.conn != nil && atomic.LoadInt32(&u.exit) != 0
 }
-
